@@ -282,6 +282,7 @@ def hostile_key_cases(tier, shard, nshards):
         b'F\x00\x00\x00\x03\x01kZ',             # nested unknown tag
         b'D\x01',                               # truncated decimal
         b'V',                                   # (control: a good value)
+        b'DUP',                                 # the same name twice, good values
     ]
     k = 0
     for key in wire.HOSTILE_KEYS + harvest.key_like():
@@ -289,6 +290,9 @@ def hostile_key_cases(tier, shard, nshards):
         for bad in bad_values:
             for nest in ('top', 'in-table', 'in-array'):
                 entry = bytes([len(raw)]) + raw + bad
+                if bad == b'DUP':
+                    one = bytes([len(raw)]) + raw
+                    entry = one + b'b\x01' + one + b'S\x00\x00\x00\x01x' + one + b'V'
                 if nest == 'in-table':
                     entry = b'\x01oF' + uint(len(entry), 4) + entry
                 elif nest == 'in-array':
